@@ -1780,6 +1780,23 @@ def store16(ctx) -> List[Ob]:
                 if isinstance(cj, ast.Name):
                     d_ = see_through(ctx, fn, cj)
                     cj = d_ if d_ is not None else cj
+                # `not xs` / `len(xs) == 0` for xs = [v for v in B.jump_targets if C(v)]  is  not any(C(v) for v in ..)
+                inner_, neg_ = cj, False
+                while isinstance(inner_, ast.UnaryOp) and isinstance(inner_.op, ast.Not):
+                    inner_, neg_ = inner_.operand, not neg_
+                if isinstance(inner_, ast.Compare) and len(inner_.ops) == 1 and isinstance(inner_.ops[0], ast.Eq) and isinstance(inner_.comparators[0], ast.Constant) and inner_.comparators[0].value == 0 and isinstance(inner_.left, ast.Call) and A.unparse(inner_.left.func) == "len" and inner_.left.args:
+                    inner_, neg_ = inner_.left.args[0], not neg_
+                if isinstance(inner_, (ast.Name, ast.ListComp, ast.SetComp)):
+                    if isinstance(inner_, ast.Name):
+                        defs2 = [a_.value for a_ in A.walk_no_nested(fn.node) if isinstance(a_, ast.Assign) and len(a_.targets) == 1 and isinstance(a_.targets[0], ast.Name) and a_.targets[0].id == inner_.id]
+                        d2 = defs2[0] if len(defs2) == 1 else None
+                    else:
+                        d2 = inner_
+                    if isinstance(d2, (ast.ListComp, ast.SetComp, ast.GeneratorExp)) and len(d2.generators) == 1 and d2.generators[0].ifs:
+                        g2 = d2.generators[0]
+                        anyc = ast.Call(func=ast.Name(id="any", ctx=ast.Load()), args=[ast.GeneratorExp(elt=g2.ifs[0] if len(g2.ifs) == 1 else ast.BoolOp(op=ast.And(), values=list(g2.ifs)), generators=[ast.comprehension(target=g2.target, iter=g2.iter, ifs=[], is_async=0)])], keywords=[])
+                        cj = ast.UnaryOp(op=ast.Not(), operand=anyc) if neg_ else anyc
+                        ast.fix_missing_locations(cj)
                 verdicts.append(_forall_not_inner(cj, L, H))
         if any(v is True for v in verdicts):
             out.append(ok("STORE-16", fn.qualname, key, where, f"taken only when no successor of the latch is in {L} without being in {H}"))
